@@ -88,7 +88,26 @@ func genTree(r *rng, depth int, toks *[]string, cborKeys bool) {
 }
 
 func randFloatBits(r *rng) uint64 {
-	switch r.intn(8) {
+	switch r.intn(9) {
+	case 3:
+		// integral floats around the integer-kind boundaries and the text-format switch points, both signs
+		var f float64
+		if r.chance(1, 3) {
+			f = []float64{1e15, 1e16, 1e17, 1e18, 1e19, 1e20, 1e21, 1e22, 123456789012345680000}[r.intn(9)]
+		} else {
+			k := []uint{31, 32, 52, 53, 62, 63, 64, 65}[r.intn(8)]
+			f = math.Ldexp(1, int(k))
+			switch r.intn(3) {
+			case 0:
+				f = math.Nextafter(f, 0)
+			case 1:
+				f = math.Nextafter(f, math.Inf(1))
+			}
+		}
+		if r.chance(1, 2) {
+			f = -f
+		}
+		return math.Float64bits(f)
 	case 0:
 		return []uint64{0, 1 << 63, 0x7ff0000000000000, 0xfff0000000000000, 0x7ff8000000000001, 0x7ff0000000000001,
 			0xfff8000000000000, 1, 0x000fffffffffffff, 0x0010000000000000, 0x7fefffffffffffff, 0x3ff0000000000000}[r.intn(12)]
